@@ -523,3 +523,62 @@ pub fn sign_modes_and_chunks(out: &mut Out, rng: &mut Rng) {
         }
     }
 }
+
+
+/// C04 / C16: serde records whose byte-array fields have other lengths than the type fixes -- an error (or, for resizable
+/// fields, the elements given), never a panic; through the text deserializer and through the one that announces lengths
+pub fn serde_field_lengths(out: &mut Out, rng: &mut Rng) {
+    use serde_json::Value;
+    let (k, n): ([u8; 32], [u8; 24]) = (rng.arr(), rng.arr());
+    let sk: [u8; 32] = rng.arr();
+    let m = rng.bytes(20);
+    let sbx = dryoc::dryocsecretbox::VecBox::encrypt_to_vecbox(&m, &StackByteArray::<24>::from(&n), &StackByteArray::<32>::from(&k));
+    let kp = dryoc::keypair::StackKeyPair::from_secret_key(StackByteArray::<32>::from(&sk));
+    let sealed = dryoc::dryocbox::VecBox::seal_to_vecbox(&m, &kp.public_key).unwrap();
+    let skp = dryoc::sign::SigningKeyPair::<dryoc::sign::PublicKey, dryoc::sign::SecretKey>::from_seed(&StackByteArray::<32>::from(&sk));
+    let signed: dryoc::sign::VecSignedMessage = skp.sign_with_defaults(m.clone()).unwrap();
+    fn arrays(v: &Value, path: Vec<String>, acc: &mut Vec<(Vec<String>, usize)>) {
+        match v { Value::Array(a) if a.iter().all(|x| x.is_u64()) => acc.push((path, a.len())),
+                  Value::Object(o) => for (k, x) in o { let mut p = path.clone(); p.push(k.clone()); arrays(x, p, acc); }, _ => {} }
+    }
+    fn set(v: &mut Value, path: &[String], new: Value) { if path.is_empty() { *v = new; } else if let Some(x) = v.get_mut(&path[0]) { set(x, &path[1..], new); } }
+    macro_rules! sweep { ($name:expr, $ty:ty, $val:expr) => {{
+        let base = serde_json::to_value(&$val).unwrap();
+        let mut fields = vec![]; arrays(&base, vec![], &mut fields);
+        for (path, n0) in fields {
+            for newlen in [0usize, 1, n0.saturating_sub(1), n0 + 1, 2 * n0, 2 * n0 + 1, 100] {
+                if newlen == n0 { continue; }
+                let mut v2 = base.clone(); set(&mut v2, &path, Value::Array((0..newlen).map(|x| Value::from((x % 251) as u64)).collect()));
+                let text = v2.to_string();
+                out.search_evaluations += 2;
+                let r1 = guard_total(|| serde_json::from_str::<$ty>(&text).is_ok());
+                let r2 = guard_total(|| serde_json::from_value::<$ty>(v2.clone()).is_ok());
+                if r1.is_panic() || r2.is_panic() { out.hit("serde.json.decode-panics.field-length", format!("{}: field {} with {} elements (declared {})", $name, path.join("."), newlen, n0), json!({"op":"serde.json_decode","type":$name,"json":text})); }
+            }
+        }
+    }}; }
+    sweep!("DryocSecretBox", dryoc::dryocsecretbox::VecBox, sbx);
+    sweep!("DryocBox(sealed)", dryoc::dryocbox::VecBox, sealed);
+    sweep!("SignedMessage", dryoc::sign::VecSignedMessage, signed);
+    sweep!("KeyPair", dryoc::keypair::StackKeyPair, kp);
+    sweep!("SigningKeyPair", dryoc::sign::SigningKeyPair<dryoc::sign::PublicKey, dryoc::sign::SecretKey>, skp);
+}
+
+/// C16: a password-hash record that carries Argon2i (only reachable by parsing an Argon2i string) survives both formats
+pub fn argon2i_record(out: &mut Out, rng: &mut Rng) {
+    use dryoc::pwhash::VecPwHash;
+    let pw = rng.bytes(6);
+    for alg in [1i32, 2] {
+        let st = match sodium::pwhash_str_alg(&pw, 3, 8192, alg) { Some(s) => s, None => continue };
+        let h = match guard(|| VecPwHash::from_string(&st)) { Outcome::Ok(h) => h, o => { out.hit("obj.pwhash.from_string.rejects-libsodium-string", o.class().to_string(), json!({"string":st})); continue; } };
+        out.search_evaluations += 2;
+        let rp = json!({"op":"serde.PwHash.algorithm","string":st,"alg":alg});
+        let j = guard(|| serde_json::from_str::<VecPwHash>(&serde_json::to_string(&h).unwrap()));
+        let bn = guard(|| bincode::deserialize::<VecPwHash>(&bincode::serialize(&h).unwrap()));
+        for (fmt, r) in [("json", j), ("bincode", bn)] {
+            match r { Outcome::Ok(h2) => { if h2.to_string() != st { out.hit(&format!("serde.{}.roundtrip-differs.PwHash.algorithm", fmt), format!("{} became {}", st, h2.to_string()), rp.clone()); }
+                                           if !guard(|| h2.verify(&pw)).is_ok() { out.hit(&format!("serde.{}.roundtrip-no-longer-verifies.PwHash", fmt), format!("algorithm {}", alg), rp.clone()); } }
+                      o => out.hit(&format!("serde.{}.roundtrip-fails.PwHash", fmt), o.class().to_string(), rp.clone()) }
+        }
+    }
+}
